@@ -150,7 +150,7 @@ CHECKS["C01"] = {
         H("c01.VH_read_step", {}, {}, covers=["served from the buffer", "matching mode, buffer consumed", "served from the network"]),
         H("c01.VH_prefetch_step", {}, {}, covers=["buffer full", "read in place", "read through a pooled chunk"]),
         H("c01.VH_match_step", {}, {}, covers=["matcher read bytes"]),
-        H("c01.VH_wrap_step", {}, {}, covers=["unread bytes at Wrap time", "drained at Wrap time"]),
+        H("c01.VH_wrap_step", {}, {}, covers=["unread bytes at Wrap time", "drained at Wrap time", "read past the bytes buffered at Wrap time"]),
         H("c01.VH_step_rec", {"READS": 2}, {"READS": 3}, covers=["recorder ran", "bytes buffered at handler time", "more than 4096 bytes buffered", "read to EOF"], weight=3),
         H("c01.VH_step_wrap", {"READS": 2}, {"READS": 3}, covers=["wrapping handler ran", "recorder ran", "more than 4096 bytes buffered"], weight=4),
         H("c01.VH_step_throttle", {"READS": 2}, {"READS": 3}, covers=["recorder ran", "more than 4096 bytes buffered"], weight=3),
